@@ -3,6 +3,7 @@ package drv
 import (
 	"reflect"
 	"verif/mc/api"
+	"verif/mc/ct"
 
 	"github.com/mlange-42/ark/ecs"
 
@@ -49,15 +50,18 @@ func (x *World) runMisc(op *model.Op, res *model.Result) *Violation {
 
 // Invalid call kinds (Op.Inv).
 const (
-	InvStale     = 1 // op.N = method code, op.E = dead entity index or ZeroTarget for the zero entity
-	InvAddHas    = 2 // add components the entity already has
-	InvRemLacks  = 3 // remove components the entity lacks
-	InvEmpty     = 4 // empty component list (op.N: 0 Unsafe.Add, 1 Unsafe.Remove, 2 Unsafe.Exchange)
-	InvNoTarget  = 5 // relation component without target (op.N: 0 new entity, 1 add)
-	InvDeadTgt   = 6 // dead entity as relation target (op.N: 0 new entity, 1 add, 2 set relation)
-	InvRelNotRel = 7 // relation target for a non-relation component
-	InvResAdd    = 8 // add a resource that exists (op.N)
-	InvResRemove = 9 // remove a resource that is absent (op.N)
+	InvStale            = 1  // op.N = method code, op.E = dead entity index or ZeroTarget for the zero entity
+	InvAddHas           = 2  // add components the entity already has
+	InvRemLacks         = 3  // remove components the entity lacks
+	InvEmpty            = 4  // empty component list (op.N: 0 Unsafe.Add, 1 Unsafe.Remove, 2 Unsafe.Exchange)
+	InvNoTarget         = 5  // relation component without target (op.N: 0 new entity, 1 add)
+	InvDeadTgt          = 6  // dead entity as relation target (op.N: 0 new entity, 1 add, 2 set relation)
+	InvRelNotRel        = 7  // relation target for a non-relation component
+	InvResAdd           = 8  // add a resource that exists (op.N)
+	InvResRemove        = 9  // remove a resource that is absent (op.N)
+	InvQueryRelIdx      = 10 // UnsafeFilter.Query with an index relation (forbidden in the ID-based API); op.F unsafe filter
+	InvQueryNotInFilter = 11 // typed Filter.Query with a relation component that is not part of the filter
+	InvQueryDeadTarget  = 12 // typed Filter.Query with a dead entity as target (op.QT)
 )
 
 // Method codes for InvStale.
@@ -177,6 +181,19 @@ func (x *World) runInvalid(op *model.Op, res *model.Result) *Violation {
 		case 2:
 			m.SetRelations(x.H[op.E], rels)
 		}
+	case InvQueryRelIdx:
+		spec := &x.M.Filters[op.F]
+		uf := ecs.NewUnsafeFilter(x.W, x.Env.IDList(spec.Params)...)
+		q := uf.Query(ecs.RelIdx(0, ecs.Entity{}))
+		q.Close()
+	case InvQueryNotInFilter:
+		fl := x.buildFilter(&x.M.Filters[op.F])
+		q := fl.Query([]api.RelArg{{Comp: ct.R2, Target: ecs.Entity{}}})
+		q.Close()
+	case InvQueryDeadTarget:
+		fl := x.buildFilter(&x.M.Filters[op.F])
+		q := fl.Query(x.relArgs(op.QT))
+		q.Close()
 	case InvResAdd:
 		x.W.Resources().Add(ecs.ResourceTypeID(x.W, resTypes[op.N]), &res0{V: -1})
 	case InvResRemove:
@@ -211,3 +228,6 @@ func (x *World) checkResources() *Violation {
 
 // QueryObject returns the raw query object in a slot (C20 misuse family).
 func (x *World) QueryObject(q int) api.Query { return x.queries[q].q }
+
+// DeadSamples exposes deadSamples to scenario probes.
+func (x *World) DeadSamples() []int { return x.deadSamples() }
